@@ -1,16 +1,32 @@
 #!/bin/bash
-# applies every kept seeded change to /repo in turn, runs the property's quick check, expects a VIOLATION
-# (exit 1), and reverts. Seeds marked NOT DETECTED in meta.json (outside the claim) are expected to pass.
+# applies every kept seeded change to a private scratch worktree of /repo in turn, runs the property's quick
+# check against it (VERIF_REPO), expects a VIOLATION (exit 1), and reverts. Seeds marked NOT DETECTED in
+# meta.json (outside the claim) are expected to pass. STREAMS (default 3) worktrees run in parallel, each
+# owning a disjoint set of properties (so evidence/replay files never collide). /repo itself is not touched.
+# NOTE: the runs overwrite evidence/*.json with results for mutated trees: regenerate evidence afterwards.
 cd "$(dirname "$0")"
+OUT=${1:-seed_regression.txt}; STREAMS=${STREAMS:-3}
 [ -n "$(git -C /repo status --porcelain)" ] && { echo "/repo not clean"; exit 2; }
-OUT=${1:-seed_regression.txt}; : > $OUT
-for d in seeded/*/; do
-  n=$(basename $d); id=${n%[bcdefgh]}
-  git -C /repo apply /verif/$d/patch.diff || { echo "$n PATCH-FAILS" >> $OUT; continue; }
-  s=$(date +%s); VERIF_NO_SAMPLES=1 ./check $id > /tmp/seedreg_$n.log 2>&1; rc=$?; e=$(date +%s)
-  git -C /repo checkout -- .
-  exp=1; grep -q "NOT DETECTED" $d/meta.json 2>/dev/null && exp=0
-  st=OK; [ $rc -ne $exp ] && st=UNEXPECTED
-  echo "$n property=$id exit=$rc expected=$exp $st wall=$((e-s))s $(grep -m1 '^VIOLATION' /tmp/seedreg_$n.log | cut -c1-80)" >> $OUT
-done
+./setup.sh >/dev/null 2>&1
+run_stream() {
+  k=$1; WT=/tmp/wt_seedreg_$k
+  git -C /repo worktree remove --force $WT 2>/dev/null
+  git -C /repo worktree add -q $WT HEAD || return
+  : > $OUT.$k
+  for d in seeded/*/; do
+    n=$(basename $d); id=${n%[b-k]}; num=$((10#${id#C}))
+    [ $((num % STREAMS)) -eq $k ] || continue
+    [ -n "$ONLY" ] && ! echo " $ONLY " | grep -q " $n " && continue
+    git -C $WT apply /verif/$d/patch.diff || { echo "$n PATCH-FAILS" >> $OUT.$k; continue; }
+    s=$(date +%s); VERIF_REPO=$WT VERIF_NO_SAMPLES=1 ./check $id > /root/seedreg_$n.log 2>&1; rc=$?; e=$(date +%s)
+    git -C $WT checkout -- . ; git -C $WT clean -fdq
+    exp=1; grep -q "NOT DETECTED" $d/meta.json 2>/dev/null && exp=0
+    st=OK; [ $rc -ne $exp ] && st=UNEXPECTED
+    echo "$n property=$id exit=$rc expected=$exp $st wall=$((e-s))s $(grep -m1 '^VIOLATION' /root/seedreg_$n.log | cut -c1-80)" >> $OUT.$k
+  done
+  git -C /repo worktree remove --force $WT
+}
+for k in $(seq 0 $((STREAMS-1))); do run_stream $k & done
+wait
+cat $OUT.* | sort > $OUT; rm -f $OUT.*
 cat $OUT
